@@ -193,6 +193,12 @@ func vpPostVotesGeneric(r *raft, pre vpRec, m *pb.Message) {
 	if r.state == StatePreCandidate && pre.state != StatePreCandidate {
 		vpAssert(vpAnd(r.Term == pre.term, r.Vote == pre.vote), "K2/precandidate-keeps-term-and-vote")
 	}
+	// a granted pre-vote carries the *future* term of the campaign it allows; it
+	// never raises the receiver's term by itself (only winning the pre-vote does)
+	if m.GetType() == pb.MsgPreVoteResp && !m.GetReject() {
+		won := vpAnd(pre.state == StatePreCandidate, r.state != StatePreCandidate, r.state != StateFollower, r.Term == pre.term+1)
+		vpAssert(vpOr(r.Term == pre.term, won), "K2/granted-pre-vote-alone-never-raises-the-term")
+	}
 }
 
 // ---- heartbeats: C06-Q4, C11-R4 ----
